@@ -2,13 +2,19 @@
 import copy
 
 
-def ddmin(items, test, max_tests=400):
+import time as _time
+
+BUDGET_S = float(__import__("os").environ.get("BCSIM_MINIMISE_BUDGET_S", "150"))
+
+
+def ddmin(items, test, max_tests=400, deadline=None):
     """Classic ddmin: returns a 1-minimal sublist of ``items`` for which test(sublist) is True.
     ``test`` must be deterministic.  Bounded by max_tests evaluations."""
     n = 2
     tests = 0
     items = list(items)
-    while len(items) >= 2 and tests < max_tests:
+    deadline = deadline or (_time.monotonic() + BUDGET_S)
+    while len(items) >= 2 and tests < max_tests and _time.monotonic() < deadline:
         chunk = max(1, len(items) // n)
         subsets = [items[i:i + chunk] for i in range(0, len(items), chunk)]
         reduced = False
@@ -21,7 +27,7 @@ def ddmin(items, test, max_tests=400):
                 n = max(n - 1, 2)
                 reduced = True
                 break
-            if tests >= max_tests:
+            if tests >= max_tests or _time.monotonic() > deadline:
                 break
         if not reduced:
             if n >= len(items):
